@@ -194,6 +194,29 @@ fn run(ctx: &mut Ctx) {
             check(ctx, &b, "two reserved bits");
         }
     });
+    // every reserved bit on top of every tie pattern of the four counters (a shortcut taken when counters are equal
+    // must not skip the other checks)
+    ctx.cases("reserved-on-ties", 8, |ctx, pat, _rng| {
+        for out in [0u32, 1, 0x0123_4567, 0x0FFF_FFFF, 0xFFFF_FFFF] {
+            let mut t = Trg::simple(9, out);
+            t.scaledown = out.saturating_add((pat & 1) as u32);
+            t.drift = t.scaledown.saturating_add(((pat >> 1) & 1) as u32);
+            t.input = t.drift.saturating_add(((pat >> 2) & 1) as u32);
+            let base = t.encode();
+            check(ctx, &base, "tie pattern");
+            for &(w, bit) in &reserved {
+                let mut b = base.clone();
+                let v = u32::from_le_bytes(b[4 * w..4 * w + 4].try_into().unwrap()) | (1 << bit);
+                b[4 * w..4 * w + 4].copy_from_slice(&v.to_le_bytes());
+                check(ctx, &b, "reserved bit on a tie pattern of the counters");
+            }
+            for bit in 0..640 {
+                let mut b = base.clone();
+                b[bit / 8] ^= 1 << (bit % 8);
+                check_light(ctx, &b, "single bit on a tie pattern of the counters");
+            }
+        }
+    });
     // header / footer / output agreement on every single bit of the 28, with ordered counters
     ctx.cases("trigout-bits", 28, |ctx, k, _rng| {
         for out in [0x00AB_CDEFu32, 0x0FFF_FFFF, 0, 0x0800_0001] {
